@@ -67,6 +67,28 @@ func (o *Out) Case(req, ans string, nontrivial bool) {
 	fmt.Fprintf(o.w, "%s\t%s\n", req, ans)
 }
 
+// Explore records one explored scenario that has no model counterpart (it is counted in the
+// statistics but not replayed on the Lean driver).
+func (o *Out) Explore(desc string, nontrivial bool) {
+	o.cases++
+	h := fnv.New64a()
+	h.Write([]byte(desc))
+	k := h.Sum64()
+	if _, ok := o.seen[k]; !ok {
+		o.seen[k] = struct{}{}
+		if nontrivial {
+			o.nontriv++
+			if len(o.samples) < 6 && (o.nontriv%17 == 1) {
+				s := desc
+				if len(s) > 400 {
+					s = s[:400] + "…"
+				}
+				o.samples = append(o.samples, s)
+			}
+		}
+	}
+}
+
 // Oracle reports a direct violation of the property on the implementation (no model involved).
 func (o *Out) Oracle(name, input, detail string) {
 	o.oracles++
